@@ -247,23 +247,33 @@ def runCmd (sem : Sem Val) (p : Program) : Nat → St Val → String → St Val 
               | .error e => (s2, some (wrapRun c.line e))
               | .ok v => ({ memo := s2.memo ++ [(n, v)], log := s2.log ++ [.finish n] }, none)
 
+/-- all references of a command (direct and through lists), as collected by the pre-pass -/
+def depsOf (info : List (String × List String × List String)) (n : String) : List String :=
+  match info.find? (·.1 == n) with
+  | some (_, _, al) => al
+  | none => []
+
+/-- every name that is the target of a *direct* reference -/
+def directOf (info : List (String × List String × List String)) : List String := info.flatMap fun (_, d, _) => d
+
+/-- commands without direct dependents, in file order -/
+def leavesOf (p : Program) (info : List (String × List String × List String)) : List PCmd :=
+  p.cmds.filter fun c => !(directOf info).contains c.resultName
+
 /-- `Program.run()` -/
 def run (sem : Sem Val) (p : Program) (st : St Val) : St Val × Option PErr :=
   match prepass (mkCtx sem p st) p.cmds with
   | .error e => (st, some e)
   | .ok info =>
-    let deps := fun n => match info.find? (·.1 == n) with | some (_, _, al) => al | none => []
-    if hasCycle p deps then
+    if hasCycle p (depsOf info) then
       (st, some (.mp "RecursiveModelStructure" none))   -- line: see `hasCycle`
     else
-      let direct := info.flatMap fun (_, d, _) => d
-      let leaves := p.cmds.filter fun c => !direct.contains c.resultName
       let rec go : List PCmd → St Val → St Val × Option PErr
         | [], s => (s, none)
         | c :: rest, s =>
             match runCmd sem p (p.cmds.length + 1) s c.resultName with
             | (s', some e) => (s', some e)
             | (s', none) => go rest s'
-      go leaves st
+      go (leavesOf p info) st
 
 end MPilot
